@@ -8,6 +8,7 @@ use geo_booleanop::boolean::compare_segments::compare_segments;
 use geo_booleanop::boolean::fill_queue::fill_queue;
 use geo_booleanop::boolean::subdivide_segments::subdivide;
 use geo_booleanop::boolean::sweep_event::{EdgeType, ResultTransition, SweepEvent};
+use geo_booleanop::boolean::BooleanOp;
 use geo_booleanop::boolean::BoundingBox;
 use geo_booleanop::verif as hooks;
 use geo_types::Coord;
@@ -28,6 +29,7 @@ pub fn seg_of<F: Real>(l: &Ev<F>) -> Option<Seg> {
 #[derive(Default, Debug, Clone)]
 pub struct SweepStats {
     pub event_fans: u64,
+    pub sweeps_with_an_unrelated_operation_between_the_stages: u64,
     pub sweeps: u64,
     pub complete_sweeps: u64,
     pub events: u64,
@@ -53,6 +55,8 @@ pub struct SweepStats {
 impl SweepStats {
     pub fn add(&mut self, o: &SweepStats) {
         self.sweeps += o.sweeps;
+        self.sweeps_with_an_unrelated_operation_between_the_stages += o.sweeps_with_an_unrelated_operation_between_the_stages;
+        self.event_fans += o.event_fans;
         self.complete_sweeps += o.complete_sweeps;
         self.events += o.events;
         self.subsegments += o.subsegments;
@@ -75,7 +79,8 @@ impl SweepStats {
     }
     pub fn to_json(&self) -> serde_json::Value {
         serde_json::json!({
-            "sweeps": self.sweeps, "complete_sweeps": self.complete_sweeps, "events": self.events, "subsegments": self.subsegments,
+            "sweeps": self.sweeps, "sweeps_with_an_unrelated_operation_between_fill_queue_and_subdivide": self.sweeps_with_an_unrelated_operation_between_the_stages,
+            "complete_sweeps": self.complete_sweeps, "events": self.events, "subsegments": self.subsegments,
             "planarity_pairs": self.pairs_planarity, "edge_chains": self.chains,
             "status_snapshots": self.snapshots, "status_keys_seen": self.snapshot_keys, "max_status_size": self.max_status,
             "status_comparator_pairs": self.status_pairs, "status_geometric_pairs": self.status_geo_pairs,
@@ -223,11 +228,24 @@ pub fn run_sweep<F: Real>(a: &MP, b: &MP, op: Op, observe: bool, exact_geo: bool
     let lop = lib_op(op);
     let mut status_failure: Option<String> = None;
     let mut local = SweepStats::default();
-    let res = guarded(n, || {
+    let interleave = st.sweeps % 2 == 1;
+    let mut interleaved_polygons = 0usize;
+    let res = guarded(n + 16, || {
         let mut sbbox = inf_box::<F>();
         let mut cbbox = inf_box::<F>();
         let mut queue: BinaryHeap<Ev<F>> = fill_queue(&ga.0, &gb.0, &mut sbbox, &mut cbbox, lop);
         let queue_len_after_fill = queue.len();
+        if interleave {
+            // the stages are separate public functions: whatever else the thread computes between them (here a complete,
+            // unrelated operation with crossings, i.e. with its own queue, divisions and status structure) must not
+            // matter to the sweep of the first queue
+            let sq = |x0: f64, y0: f64, w: f64| -> geo_types::Polygon<F> {
+                let c = |x: f64, y: f64| Coord { x: F::from64(x), y: F::from64(y) };
+                geo_types::Polygon::new(geo_types::LineString(vec![c(x0, y0), c(x0 + w, y0), c(x0 + w, y0 + w), c(x0, y0 + w), c(x0, y0)]), vec![])
+            };
+            let other = geo_types::MultiPolygon(vec![sq(0.0, 0.0, 4.0), sq(10.0, 1.0, 2.0)]).boolean(&geo_types::MultiPolygon(vec![sq(2.0, 1.0, 4.0), sq(9.0, 0.0, 2.0)]), geo_booleanop::boolean::Operation::Xor);
+            interleaved_polygons = other.0.len();
+        }
         let mut initial = Vec::new();
         for e in queue.iter() {
             if e.is_left() {
@@ -255,6 +273,12 @@ pub fn run_sweep<F: Real>(a: &MP, b: &MP, op: Op, observe: bool, exact_geo: bool
     st.add(&local);
     let (events, rest, complete, queue_len_after_fill, sbbox, cbbox, initial) = res?;
     st.sweeps += 1;
+    if interleave {
+        st.sweeps_with_an_unrelated_operation_between_the_stages += 1;
+        if interleaved_polygons == 0 {
+            return Err(Failure::Panic("the interleaved unrelated operation returned nothing".into()));
+        }
+    }
     if complete {
         st.complete_sweeps += 1;
     }
